@@ -245,7 +245,8 @@ static void part_f(Ctx& ctx, uint64_t m, const CpuCfg& cfg) {
   }
   // double -> int64, both bounds, two divisors
   // double -> int64: EVERY log2bound 0..64 (the announced bound of |x/d|), two divisors; values inside min(2^log2bound, 2^52)
-  for (uint32_t lb = 0; lb <= 64; ++lb) for (int j : {0, 7}) {
+  // (divisor in the outer loop: consecutive *_simple calls differ in log2bound only, so a table kept between calls must be re-selected)
+  for (int j : {0, 7}) for (uint32_t lb = 0; lb <= 64; ++lb) {
     const int lim = (int)std::min<uint32_t>(lb, 52);
     std::vector<double> Y = quotient_alphabet(std::max(lim, 1), -3);
     if (lim == 0) Y = {0.0, 0.25, -0.25, 0.5 - 0x1p-54, -(0.5 - 0x1p-54), 0.75, -0.75, 1.0 - 0x1p-53};
@@ -265,7 +266,7 @@ static void part_f(Ctx& ctx, uint64_t m, const CpuCfg& cfg) {
   }
   // complex -> torus32 (both dispatch branches of log2overhead)
   for (uint32_t l2o = 0; l2o <= 52; ++l2o) {
-    std::vector<double> Y = quotient_alphabet(18, -40);
+    std::vector<double> Y = quotient_alphabet(std::max<int>(1, std::min<int>((int)l2o, 24)), -40);  // up to the announced overhead (consecutive *_simple calls differ in log2overhead only)
     GBuf x(n * 8, 8), r(n * 4, 16), r2(n * 4, 24);
     const double d = 4.0;
     CPLX_TO_TNX32_PRECOMP* p = new_cplx_to_tnx32_precomp(m, d, l2o);
